@@ -121,6 +121,11 @@ def injectors():
     for n in LOOKALIKE_TYPES:
         add("unknown-cast-type", "rule", {"path": ["a"], "condition": {"value.equal_to": 1}, "cast": {n: "int"}})
         add("unknown-cast-type", "rule", {"path": ["a"], "condition": {"value.equal_to": 1}, "cast": {"str": n}})
+    for n in ("and", "or", "xor", "And", "OR", "not", "null"):
+        for val in ([], [{"value.equal_to": 1}], [{"value.equal_to": 1}, {"value.truthy": None}], 1, None):
+            add("unknown-datum-kind", "cond", {f"{n}.equal_to": val})
+            add("unknown-datum-kind", "cond", {f"{n}.length.greater_than": val})
+            add("unknown-datum-kind", "cond", {f"{n}.bogus": val})
     for n in RANDOM_NAMES + HOSTILE_NAMES:
         add("unknown-callable", "cond", {f"value.{n}": 1})
         add("unknown-callable", "cond", {f"value.{n}": None})
